@@ -421,21 +421,74 @@ def relex(toks):
     return lex(untok(toks))
 
 
+def _parse_pattern(before):
+    """pattern tokens; `$name` is a wildcard matching a non-empty bracket-balanced token run"""
+    pt = sig(lex(before))
+    out = []
+    i = 0
+    while i < len(pt):
+        if pt[i].text == "$" and i + 1 < len(pt) and pt[i + 1].kind == IDENT:
+            out.append(("$", pt[i + 1].text))
+            i += 2
+        else:
+            out.append(("t", pt[i].text))
+            i += 1
+    return out
+
+
+def _match_at(st, i, pat, k, binds):
+    """try to match pat[k:] at st[i:]; returns end index (exclusive) or None"""
+    if k == len(pat):
+        return i
+    kind, val = pat[k]
+    if kind == "t":
+        if i < len(st) and st[i].text == val:
+            return _match_at(st, i + 1, pat, k + 1, binds)
+        return None
+    # wildcard: minimal balanced run
+    depth = 0
+    j = i
+    while j < len(st):
+        t = st[j]
+        if t.kind == PUNCT and t.text in OPEN:
+            depth += 1
+        elif t.kind == PUNCT and t.text in CLOSE:
+            depth -= 1
+            if depth < 0:
+                return None
+        j += 1
+        if depth == 0:
+            binds[val] = (i, j)
+            e = _match_at(st, j, pat, k + 1, binds)
+            if e is not None:
+                return e
+    return None
+
+
 def apply_pattern_rewrites(text, rules, log, where):
     """per-site, declared, logged rewrites (R12 family): each rule is
-    (rule_id, before_norm, after_text, expected_count).  Matching is on the
-    normalised token stream so layout does not matter."""
+    (rule_id, before, after_text, expected_count).  Matching is on the
+    normalised token stream so layout does not matter; `$name` in `before`
+    matches any non-empty bracket-balanced token run (e.g. a closure that must
+    stay real code) and `$name` in `after` re-inserts its source text."""
     for rid, before, after, expect in rules:
         toks = lex(text)
         st = sig(toks)
-        pat = [t.text for t in sig(lex(before))]
+        pat = _parse_pattern(before)
         hits = []
         i = 0
-        while i + len(pat) <= len(st):
-            if [t.text for t in st[i:i + len(pat)]] == pat:
-                hits.append((st[i].pos, st[i + len(pat) - 1].pos +
-                             len(st[i + len(pat) - 1].text)))
-                i += len(pat)
+        while i < len(st):
+            binds = {}
+            e = _match_at(st, i, pat, 0, binds) if pat else None
+            if e is not None and e > i:
+                a = st[i].pos
+                b = st[e - 1].pos + len(st[e - 1].text)
+                rep = after
+                for name, (x, y) in binds.items():
+                    seg = text[st[x].pos:st[y - 1].pos + len(st[y - 1].text)]
+                    rep = rep.replace("$" + name, seg)
+                hits.append((a, b, rep))
+                i = e
             else:
                 i += 1
         if expect is not None and len(hits) != expect:
@@ -445,9 +498,9 @@ def apply_pattern_rewrites(text, rules, log, where):
         if not hits and expect is None:
             raise ExtractError("%s: rewrite %s matches nowhere: `%s`"
                                % (where, rid, before))
-        for a, b in reversed(hits):
-            log.add(rid, where, " ".join(text[a:b].split())[:100], after[:100])
-            text = text[:a] + after + text[b:]
+        for a, b, rep in reversed(hits):
+            log.add(rid, where, " ".join(text[a:b].split())[:100], " ".join(rep.split())[:100])
+            text = text[:a] + rep + text[b:]
     return text
 
 
